@@ -355,6 +355,13 @@ func c04Work(c *mc.Ctx) {
 						m[i] = b
 						emit(m)
 					}
+					// off by one and two in every byte (a length, count or tag that is only slightly wrong
+					// passes a bound check that is only slightly loose)
+					for _, d := range []byte{1, 2, 0xff, 0xfe} {
+						m := append([]byte(nil), enc...)
+						m[i] += d
+						emit(m)
+					}
 				}
 			})
 			block("token-replace", hx(enc), func(emit func([]byte)) {
